@@ -250,19 +250,19 @@ func (w *World) userObs(u *User, now time.Time) UserObs {
 	if o.RTok != 0 && !u.RecoverExpiry.IsZero() {
 		rem := u.RecoverExpiry.Sub(now)
 		if rem >= 0 {
-			o.RLeft = int(math.Floor(float64(rem) / float64(Unit)))
+			o.RLeft = int(math.Floor(float64(rem) / float64(Unit/G)))
 		}
 	}
 	o.WinLeft = -1
 	if !u.LastAttempt.IsZero() {
-		g := int(math.Round(float64(now.Sub(u.LastAttempt)) / float64(Unit)))
-		o.WinLeft = clipLeft(c.LockWindow - g)
+		g := int(math.Round(float64(now.Sub(u.LastAttempt)) / float64(Unit/G)))
+		o.WinLeft = clipLeft(Thr(c.LockWindow) - g)
 	}
 	o.LockLeft = -1
 	if !u.Locked.IsZero() {
 		rem := u.Locked.Sub(now)
 		if rem > 0 {
-			o.LockLeft = int(math.Floor(float64(rem) / float64(Unit)))
+			o.LockLeft = int(math.Floor(float64(rem) / float64(Unit/G)))
 		}
 	}
 	o.Otps = []int{}
@@ -388,8 +388,8 @@ func (w *World) sessObs(m map[string]string, now time.Time) SessObs {
 	if v, ok := m[authboss.SessionLastAction]; ok {
 		s.ExpLeft = -1
 		if t, err := time.Parse(time.RFC3339, v); err == nil {
-			g := int(math.Round(float64(now.Sub(t)) / float64(Unit)))
-			s.ExpLeft = clipLeft(c.ExpireAfter - g)
+			g := int(math.Round(float64(now.Sub(t)) / float64(Unit/G)))
+			s.ExpLeft = clipLeft(Thr(c.ExpireAfter) - g)
 		}
 	}
 	_, s.App1 = m[AppKeys["app1"]]
@@ -469,7 +469,7 @@ func (w *World) rebaseSMS() {
 	now := time.Now().UTC().Unix()
 	for _, b := range w.Browsers {
 		if _, ok := w.In.Sess.Get(b)[sms2fa.SessionSMSLast]; ok {
-			v := strconv.FormatInt(now-int64(w.Now-w.smsTick[b])*int64(Unit/time.Second), 10)
+			v := strconv.FormatInt(now-int64(w.Now-w.smsTick[b])*int64(Unit/G/time.Second), 10)
 			w.In.Sess.Set(b, sms2fa.SessionSMSLast, v)
 			w.smsSeen[b] = v
 		}
